@@ -51,7 +51,7 @@ for name in names:
         for c in order:
             rc, out = sh('./check %s --repo %s' % (c, w), cwd=V)
             lines = [l for l in out.splitlines() if l.startswith(('VIOLATION', 'UNDECIDED'))]
-            r['checks'][c] = {'exit': rc, 'lines': [l.replace(w, '<wt>')[:300] for l in lines[:3]]}
+            r['checks'][c] = {'exit': rc, 'lines': [l.replace(w, '<wt>')[:300] for l in lines[:12]]}
             if rc == 1:
                 break
         hit = [c for c, x in r['checks'].items() if x['exit'] == 1]
